@@ -142,7 +142,7 @@ def gen(t, tier):
     elif sc['coverage'] and t.chance(0.4):
         # not a rectangle: a polygon (triangle / L-shape that reaches all four borders of the grid) or two separate
         # boxes in opposite corners - their bounding box spans the grid, their area does not
-        sc['coverage'] = ['shape', t.pick(['triangle', 'lshape', 'corners', 'corners2']), t.choice(1000)]
+        sc['coverage'] = ['shape', t.pick(['triangle', 'lshape', 'corners', 'corners2', 'corners', 'lshape', 'empty2']), t.choice(1000)]
     if deep:
         # always with a coverage (a full-extent cleanup of a 10-level pyramid takes the per-level fast path anyway)
         lo = t.pick([0.47, 0.48, 0.485, 0.49, 0.495])
@@ -361,6 +361,15 @@ def _run(sc, tape):
                 geom = Polygon([(gbb[0], gbb[1]), (gbb[2], gbb[1]), (gbb[0], gbb[3])])
                 cov_confs = {'cov': {'datasource': '/simfs/conf/cov.txt', 'srs': 'EPSG:3857'}}
                 cov_files['/simfs/conf/cov.txt'] = geom.wkt + '\n'
+            elif kind == 'empty2':
+                # two coverages, both without any geometry today (expire-tiles directories nothing was written to): the task has
+                # nothing to clean
+                geom = Polygon()
+                cov_confs = {'cov': {'expire_tiles': '/simfs/conf/expired1'},
+                             'cov2': {'expire_tiles': '/simfs/conf/expired2'}}
+                for d_ in ('/simfs/conf/expired1', '/simfs/conf/expired2'):
+                    if not os.path.isdir(d_):
+                        os.makedirs(d_)
             elif kind == 'lshape':
                 geom = Polygon([(gbb[0], gbb[1]), (gbb[2], gbb[1]), (gbb[2], gbb[1] + f * gh), (gbb[0] + f * gw, gbb[1] + f * gh),
                                 (gbb[0] + f * gw, gbb[3]), (gbb[0], gbb[3])])
@@ -374,7 +383,7 @@ def _run(sc, tape):
                     b2[0] -= 1000.0
                 geom = unary_union([sbox(*b1), sbox(*b2)])
                 cov_confs = {'cov': {'bbox': b1, 'srs': 'EPSG:3857'}, 'cov2': {'bbox': b2, 'srs': 'EPSG:3857'}}
-            cov = list(geom.bounds)
+            cov = list(geom.bounds) if not geom.is_empty else [gbb[0], gbb[1], gbb[0] + 1e-6, gbb[1] + 1e-6]
         elif cov:
             from shapely.geometry import box as sbox
             geom = sbox(*cov)
